@@ -20,13 +20,18 @@ def gen_case(seed, idx, side, ncycles):
     return {"seed": seed, "idx": idx, "side": side, "ncycles": ncycles}
 
 
-def build_layout(rnd):
+def build_layout(rnd, late=None):
+    """`late`: if given (a list), a call-back `late[0]()` is invoked once at `late[1]` registers — the
+    caller constructs the Multiplexer there, so the remaining registers are added to the (still
+    open) map after the multiplexer exists and before it is elaborated"""
     dw = rnd.choice([1, 3, 8, 8, 16, 32])
     aw = rnd.randint(2, 6)
     al = rnd.choice([0, 0, 0, 1, 2])
     mm = MemoryMap(addr_width=aw, data_width=dw, alignment=al)
     regs = []
     for i in range(rnd.randint(1, 6)):
+        if late is not None and i == late[1]:
+            late[0](mm)
         w = rnd.choice([0, 1, max(dw - 1, 1), dw, dw + 1, 2 * dw, 2 * dw + 3, 3 * dw, 4 * dw + 3])
         r = El(w, rnd.choice(["r", "w", "rw", "rw"]))
         size = (w + dw - 1) // dw
@@ -45,7 +50,17 @@ def build_layout(rnd):
 def run_impl(case):
     rnd = lib.rng_for(case["seed"], case["idx"], 404)
     side = case["side"]                      # "r" (C04) or "w" (C05)
-    mm, regs, dw, aw, ov = build_layout(rnd)
+    rnd2 = lib.rng_for(case["seed"], case["idx"], 414)
+    early = {}
+    late = None
+    if rnd2.random() < 0.15:
+        # the multiplexer does not freeze its map: registers may still be added between its construction
+        # and its elaboration, and must be decoded like the others
+        probe = lib.random.Random()
+        probe.setstate(rnd.getstate())
+        ov_pre = build_layout(probe)[4]           # dry run: the sharing limit this case will draw
+        late = [lambda mm_: early.setdefault("mux", csr.Multiplexer(mm_, shadow_overlaps=ov_pre)), rnd2.randint(0, 2)]
+    mm, regs, dw, aw, ov = build_layout(rnd, late)
     if not regs:
         return {"skip": True}
     layout = {id(r): (s, e) for r, _, (s, e) in mm.resources()}
@@ -56,9 +71,9 @@ def run_impl(case):
         lines.append(f"reg {s} {e - s} {r.element.width} {int(r.element.access.readable())} {int(r.element.access.writable())}")
     stats = {"layouts": 1, "cycles": 0, "shared_chunks": 0, "rd_strobes": 0, "wr_strobes": 0,
              "rd_snap_checked": 0, "wr_concat_checked": 0, "multi_chunk_done": 0, "refused_layouts": 0,
-             "unaligned": 0, "padded": 0, "unmapped_access": 0}
+             "unaligned": 0, "padded": 0, "unmapped_access": 0, "registers_added_after_construction": int("mux" in early)}
     try:
-        mux = csr.Multiplexer(mm, shadow_overlaps=ov)
+        mux = early.get("mux") or csr.Multiplexer(mm, shadow_overlaps=ov)
         top = simutil.wrap(mux)
         from amaranth.sim import Simulator
         sim = simutil.simulator(top, case)
